@@ -76,12 +76,13 @@ class parse_tl_num(Contract):
         return dict(buf=cx.run.input_buf('buf', 'bytes'), offset=cx.run.input_int('offset'))
 
     def pre(self, cx, buf, offset):
-        return And(isinstance(buf, View), zint(offset) >= 0)
+        return zint(offset) >= 0
 
     raises = {
-        IndexError: lambda cx, buf, offset: zint(offset) >= zint(buf.length),
-        struct.error: lambda cx, buf, offset: And(zint(offset) < zint(buf.length),
-                                                  zint(offset) + need_at(cx.heap, buf, offset) > zint(buf.length)),
+        TypeError: lambda cx, buf, offset: not isinstance(buf, View),          # e.g. None: not subscriptable
+        IndexError: lambda cx, buf, offset: isinstance(buf, View) and zint(offset) >= zint(buf.length),
+        struct.error: lambda cx, buf, offset: isinstance(buf, View) and And(
+            zint(offset) < zint(buf.length), zint(offset) + need_at(cx.heap, buf, offset) > zint(buf.length)),
     }
 
     def post(self, cx, result, buf, offset):
